@@ -109,7 +109,15 @@ struct Chooser
     }
     Bytes extra()
     {
-        int k = pick(6);
+        int k = pick(7);
+        if (k == 6)
+        {
+            // 20000 incompressible bytes: the compressed stream is longer than the codecs' 16384-byte output chunk
+            Bytes s(20000, '\0');
+            uint64_t x = 0x2545F4914F6CDD1Dull;
+            for (auto& c : s) { x ^= x << 13; x ^= x >> 7; x ^= x << 17; c = (char)(x >> 24); }
+            return s;
+        }
         if (k == 5) return Bytes("\x01PAD", 4);  // replaced by pad_to_chunk(): payload becomes an exact multiple of zlib's 16384-byte chunk
         switch (k)
         {
@@ -536,7 +544,7 @@ inline std::optional<double> opt_dbl(Chooser& c, double base)
 }
 inline std::vector<dj::beatgrid_marker> gen_grid1(Chooser& c, size_t base_n, bool wide)
 {
-    size_t n = wide ? c.count(base_n, {0, 1, 2, 8, 683, 32768, 32769, 40000}) : c.count(base_n, {0, 1, 2, 8, 683});
+    size_t n = wide ? c.count(base_n, {0, 1, 2, 8, 683, 32767, 32768, 32769, 40000}) : c.count(base_n, {0, 1, 2, 8, 683, 32768, 32769});  // 32768 is the 1.x decoder's limit
     std::vector<dj::beatgrid_marker> g(n);
     for (size_t i = 0; i < n; ++i)
     {
@@ -622,11 +630,20 @@ inline std::vector<dj::waveform_entry> gen_wave1(Chooser& c, bool wide)
 {
     size_t n = wide ? c.count(4, {0, 1, 2, 1023, 1024, 1025, 5461, 5462, 8187, 16375, 100000}) : c.count(4, {0, 1, 2, 1024, 5462, 8187, 16375});  // 8187 x 6 + 30 = 16375 x 3 + 27 = 3 x 16384
     std::vector<dj::waveform_entry> w(n);
+    const bool noisy = c.pick(2) == 1;  // incompressible content: the compressed stream outgrows one 16384-byte output chunk for the larger sizes
+    uint64_t x = 0x9E3779B97F4A7C15ull;
     for (size_t i = 0; i < n; ++i)
     {
         w[i].low = {(uint8_t)(i * 31 + 3), (uint8_t)(i * 5 + 1)};
         w[i].mid = {(uint8_t)(i * 17 + 5), (uint8_t)(i * 3 + 2)};
         w[i].high = {(uint8_t)(i * 13 + 7), (uint8_t)(255 - i)};
+        if (noisy)
+        {
+            x ^= x << 13; x ^= x >> 7; x ^= x << 17;
+            w[i].low = {(uint8_t)(x >> 8), (uint8_t)(x >> 16)};
+            w[i].mid = {(uint8_t)(x >> 24), (uint8_t)(x >> 32)};
+            w[i].high = {(uint8_t)(x >> 40), (uint8_t)(x >> 48)};
+        }
     }
     for (int which = 0; which < 2; ++which)
     {
